@@ -3,8 +3,10 @@
 # Analysed twice: firmware flags (receive buffer 256) and -DHOST_BUILD (the
 # osmocon build, 2048).  Decided: C06.R1 bounded store, C06.R2 escape
 # agreement, C06.R3 un-escaping covers every framed octet, C06.R4 dispatch
-# and queue discipline, C06.R5 (thorough) DLCI origin at every call site of
-# sercomm_sendmsg.  See DESIGN.md section 7, C06.
+# and queue discipline (the frame-end ownership of the receive buffer is
+# resolved through the return values of dispatch_rx_msg), C06.R5 (thorough)
+# DLCI origin at every call site of sercomm_sendmsg, C06.R6 no caller of
+# sercomm_drv_pull drops a pulled octet.  See DESIGN.md section 7, C06.
 
 import os
 import shutil
@@ -12,7 +14,7 @@ import tempfile
 
 from report import AnalysisError
 from cfront import (TU, CCFG, kids, kind, strip, walk, ctext, cliterals,
-                    calls_to, call_args, strip_comments, array_extent)
+                    calls_to, call_args, strip_comments, array_extent, wrap_int)
 
 EXPLANATION = (
     "clang AST of sercomm.c (firmware flags and -DHOST_BUILD), msgb.c and, in "
@@ -31,7 +33,15 @@ EXPLANATION = (
     "dlci_handler[]/dlci_queues[], the queue scan (walked under both outcomes "
     "of the dequeue for the first and the generic iteration: ascending from 0, "
     "stops at the first non-empty queue), FIFO enqueue/dequeue in msgb.c, and "
-    "who-may-write scans of the receive buffer.  A statement about all paths of "
+    "who-may-write scans of the receive buffer.  At the closing flag the step may "
+    "branch on the value dispatch_rx_msg returned: each such path is paired with the "
+    "return statements of dispatch_rx_msg that can produce that value and with what "
+    "that callee path did to the buffer (handed to the handler / freed / left with the "
+    "caller).  Every caller of sercomm_drv_pull (osmocon, firmware UART drivers) is "
+    "executed abstractly on its CFG: integer locals concrete, each pull followed with "
+    "both outcomes, other call results as symbols under recorded path facts; a pulled "
+    "octet is a token that must flow into a call argument / a write() length before "
+    "its storage dies.  A statement about all paths of "
     "one step holds for every octet stream and every queueing history.")
 ASSUMPTIONS = [
     "payload equality and FIFO order over all message sequences follow from the per-step tables by induction over the stream (argued in DESIGN.md, not machine-checked)",
@@ -39,6 +49,10 @@ ASSUMPTIONS = [
     "llist primitives __llist_add/__llist_del (linuxlist.h) are correct; container_of is type-checked by clang",
     "sercomm_lock/unlock make sendmsg and pull atomic with respect to each other; the receiver runs in one context only",
     "tx.state / rx.state are zero-initialised statics (initial state = enumerator 0)",
+    "POSIX write(fd, buf, n) sends buf[0..n-1] in index order; a pulled octet that becomes an argument of any other call "
+    "(uart_putchar_nb, ...) is taken as forwarded - what that callee does with it is not followed",
+    "non-local objects read in the branch conditions of a pull caller keep their value between two reads unless the caller "
+    "itself stores to them (a verdict that needs such a re-read after a call is withheld: ANALYSIS-ERROR)",
 ]
 
 F = "src/target/firmware/comm/sercomm.c"
@@ -175,6 +189,7 @@ class Step:
         self.state_lv = state_lv
         self.ptr = ptr              # canonical text of the octet pointer (transmitter)
         self.relational = False
+        self.cond_calls = False     # record calls made inside branch conditions as call events
         self._eff = {}
         self.params = [p.get("id") for p in tu.fparams(self.f)]
         self.pnames = [p.get("name") for p in tu.fparams(self.f)]
@@ -301,6 +316,63 @@ class Step:
             if rb is not None and rb == neutral:
                 return None, ea, pa
         return None, s, True
+
+    def call_atoms(self, e, st, pol):
+        """Constraints on call results implied by truth(e) == pol:
+        {(callee, call text, op, k)} meaning `result op k`.  A call result
+        involved in a way that cannot be decomposed (disjunction, compared
+        with a non-constant) yields (callee, call text, None, None)."""
+        e = strip(e)
+        k = kind(e)
+        if k == "UnaryOperator" and e.get("opcode") == "!":
+            return self.call_atoms(kids(e)[0], st, not pol)
+        if k == "BinaryOperator" and e.get("opcode") in ("&&", "||"):
+            a, b = kids(e)
+            sub = self.call_atoms(a, st, pol) | self.call_atoms(b, st, pol)
+            if (e.get("opcode") == "&&") == pol:
+                return sub
+            return {(c[0], c[1], None, None) for c in sub}
+        if k == "BinaryOperator" and e.get("opcode") in CMP:
+            op = e.get("opcode")
+            ta, tb = (self.term(x, st) for x in kids(e))
+            if tb[0] == "call" and ta[0] == "const":
+                ta, tb = tb, ta
+                op = {"<": ">", ">": "<", "<=": ">=", ">=": "<="}.get(op, op)
+            if ta[0] == "call" and tb[0] == "const":
+                if not pol:
+                    op = {"==": "!=", "!=": "==", "<": ">=", ">=": "<", ">": "<=", "<=": ">"}[op]
+                return {(ta[1], ta[2], op, tb[1])}
+            return {(t[1], t[2], None, None) for t in (ta, tb) if t[0] == "call"}
+        t = self.term(e, st)
+        if t[0] == "call":
+            return {(t[1], t[2], "!=" if pol else "==", 0)}
+        out = set()
+        for x in walk(e):
+            if kind(x) in ("CallExpr", "DeclRefExpr") and x is not e:
+                tx = self.term(x, st)
+                if tx[0] == "call":
+                    out.add((tx[1], tx[2], None, None))
+        return out
+
+    def cond_call_events(self, node, st):
+        """Calls made while a branch condition is evaluated (cond_calls):
+        recorded like statement-level calls.  A call that is evaluated only
+        under a short-circuit operand cannot be placed on the path."""
+        c = node.cond
+        line = self.tu.line(node.ast) if node.ast else None
+        for e in effects(c):
+            if e[0] != "call" or e[1] == "msgb_tailroom":
+                continue
+            cur, par = e[3], self.tu.parent.get(id(e[3]))
+            while par is not None and cur is not c:
+                ks = kids(par)
+                if (kind(par) == "BinaryOperator" and par.get("opcode") in ("&&", "||") and len(ks) == 2 and ks[1] is cur) \
+                        or (kind(par) == "ConditionalOperator" and ks and ks[0] is not cur):
+                    raise AnalysisError("%s(): %s() is called under a short-circuit operand of the condition `%s` -- "
+                                        "unclassifiable" % (self.fname, e[1], ctext(c)))
+                cur, par = par, self.tu.parent.get(id(par))
+            st.events.append(("call", e[1], tuple(ctext(a) for a in e[2]),
+                              tuple(self.term(a, st) for a in e[2]), node.id, line))
 
     # -- effects of one statement --------------------------------------------
     def node_effects(self, node):
@@ -444,6 +516,8 @@ class Step:
                         if has_write(c):
                             raise AnalysisError("%s(): side effect inside the condition `%s` -- unclassifiable" % (
                                 self.fname, ctext(c)))
+                        if self.cond_calls:
+                            self.cond_call_events(node, st)
                         r, ex, pol = self.residual(c, st, v)
                         if r is None and self.mentions(ex, st):
                             raise AnalysisError("%s(): condition `%s` mixes the octet/state with other operands -- "
@@ -457,7 +531,8 @@ class Step:
                             s2 = st.copy()
                             if c is not None:
                                 truth = (bool(l) == pol)
-                                s2.events.append(("fork", node.id, bool(l), frozenset(cliterals(self.tu, ex, truth))))
+                                s2.events.append(("fork", node.id, bool(l), frozenset(cliterals(self.tu, ex, truth)),
+                                                  frozenset(self.call_atoms(ex, st, truth))))
                                 atom, ap = strip(ex), truth
                                 while kind(atom) == "UnaryOperator" and atom.get("opcode") == "!":
                                     atom, ap = strip(kids(atom)[0]), not ap
@@ -675,15 +750,18 @@ class Rx:
         if ps[0].get("type", {}).get("qualType") not in OCTET_TYPES:
             raise AnalysisError("%s(): the received octet is no longer an 8-bit unsigned value" % RX_FN)
         self.step = Step(tu, RX_FN, ps[0]["name"], RXS)
+        self.step.cond_calls = True
         self.g = self.step.g
+        self.own = own_functions(tu)
         self.states = enum_states(tu)
         self.names = {v: k for k, v in self.states.items()}
         self.tab = self.step.table(sorted(self.names))
         self.rows = {}          # (state, octet) -> sig of the path(s) with room
+        self.variants = {}      # (state, octet) -> [(constraints on the result of an own function called in the step, sig)]
         self.over = []          # overflow paths
         self.noroomtest = 0
         for (s, v), paths in self.tab.items():
-            sigs = set()
+            groups = {}
             for p in paths:
                 r = self.room(p)
                 if r is False:
@@ -691,13 +769,43 @@ class Rx:
                     continue
                 if r is None:
                     self.noroomtest += 1
-                sigs.add(self.sig(p))
-            if len(sigs) != 1:
+                groups.setdefault(self.result_constraints(p), set()).add(self.sig(p))
+            sigs = set()
+            for g in groups.values():
+                sigs |= g
+            if len(sigs) == 1:
+                self.rows[(s, v)] = sigs.pop()
+                continue
+            # several behaviours: acceptable only if they are told apart by the value an own function
+            # returned to this very step (resolved against that function's return statements by the rules)
+            if frozenset() in groups or any(len(g) != 1 for g in groups.values()):
                 forks = sorted({("" if pol else "!") + t for p in paths for e in p.events if e[0] == "fork"
                                 for (t, pol) in e[3]})
                 raise AnalysisError("%s(): the step in %s on octet %s is not a function of (state, octet): %d behaviours "
                                     "depending on %s -- unclassifiable" % (RX_FN, sname(self.names, s), hx(v), len(sigs), forks))
-            self.rows[(s, v)] = sigs.pop()
+            var = sorted(((c, list(g)[0]) for c, g in groups.items()), key=lambda x: (sorted(x[0], key=str), str(x[1])))
+            self.variants[(s, v)] = var
+            self.rows[(s, v)] = var[0][1]
+
+    def result_constraints(self, p):
+        """Constraints (callee, call text, op, k) this path puts on the
+        value returned by functions of sercomm.c called earlier in the step."""
+        out = set()
+        called = {e[1] for e in p.events if e[0] == "call"}
+        for e in p.events:
+            if e[0] != "fork" or len(e) < 5:
+                continue
+            for c in e[4]:
+                if c[0] not in self.own:
+                    continue
+                if c[2] is None or c[0] not in called:
+                    raise AnalysisError("%s(): a branch depends on the result of %s() in a way the rule cannot resolve "
+                                        "-- unclassifiable" % (RX_FN, c[0]))
+                out.add(c)
+        return frozenset(out)
+
+    def variants_of(self, s, v):
+        return self.variants.get((s, v)) or [(frozenset(), self.rows[(s, v)])]
 
     @staticmethod
     def room(p):
@@ -1412,9 +1520,74 @@ def is_unsigned(n):
     return qt.startswith("uint") or "unsigned" in qt or qt in ("size_t", "uint8_t")
 
 
-def r4_sercomm(L, tu, tag, rx, tx, K, chain):
+def callee_outcomes(tu, name, j):
+    """What a function of sercomm.c that is handed the receive buffer as
+    parameter j does with it, per path: {(return term, fates)} with fates a
+    subset of {'handler' (passed to the registered DLCI handler), 'freed'};
+    the empty set means the buffer is left with the caller."""
+    fn = tu.func(name)
+    pn = [p.get("name") for p in tu.fparams(fn)]
+    if j >= len(pn):
+        raise AnalysisError("%s(): signature changed" % name)
+    buf = pn[j]
+    stp = Step(tu, name, "<no octet>", "<no state>")
+    out = set()
+
+    def mentions_buf(text):
+        return ident_count(text, buf) > 0
+
+    for p in stp.paths(0, 0):
+        fates = set()
+        for e in p.events:
+            if e[0] == "call":
+                if buf in e[2]:
+                    if e[1] == "msgb_free":
+                        fates.add("freed")
+                    elif e[1].startswith(HANDLERS + "["):
+                        fates.add("handler")
+                    else:
+                        raise AnalysisError("%s() hands the receive buffer to %s(): ownership unclassifiable" % (name, e[1]))
+                elif any(mentions_buf(a) for a in e[2]):
+                    raise AnalysisError("%s(): the receive buffer appears inside an argument of %s() -- unclassifiable"
+                                        % (name, e[1]))
+            elif e[0] in ("store", "local", "compound") and (e[2] == ("expr", buf) or mentions_buf(e[1])):
+                raise AnalysisError("%s(): the receive buffer `%s` is copied or written (%s) -- unclassifiable" % (
+                    name, buf, e[1]))
+            elif e[0] in ("loopcut", "loopexit"):
+                raise AnalysisError("%s(): loop in a function that is handed the receive buffer -- unclassifiable" % name)
+        ret = p.ret if p.ret not in (None, ("void",)) else None
+        if ret is not None and ret[0] != "const":
+            ret = ("nonconst", ctext_term(ret))
+        out.add((ret, frozenset(fates)))
+    return out
+
+
+def consistent(constraints, ret, callee):
+    """Can a callee path returning `ret` be the one the caller's path assumed?"""
+    for (name, txt, op, k) in constraints:
+        if name != callee:
+            raise AnalysisError("%s(): the closing-flag path depends on the result of %s() -- unclassifiable" % (RX_FN, name))
+        if ret is None:
+            raise AnalysisError("%s() returns no value on some path but %s() tests its result -- unclassifiable" % (callee, RX_FN))
+        if ret[0] != "const":
+            raise AnalysisError("%s() returns the non-constant `%s`; %s() branches on it -- unclassifiable" % (
+                callee, ret[1], RX_FN))
+        r = ret[1]
+        if not {"==": r == k, "!=": r != k, "<": r < k, ">": r > k, "<=": r <= k, ">=": r >= k}[op]:
+            return False
+    return True
+
+
+def r4_frame_end(L, tu, tag, rx, K, chain):
+    """C06.R4 (closing flag).  Decides the 'exactly once' and 'identical
+    payload' clauses at the frame boundary: the completed frame is dispatched
+    once with (received DLCI, receive buffer), and on EVERY path of that step
+    -- every value dispatch_rx_msg can return, resolved against its own return
+    statements and against what it did with the buffer on that path -- the
+    receive buffer pointer is NULL or a fresh buffer afterwards.  A pointer
+    that survives the closing flag makes the next frame's octets land behind
+    the finished frame's payload (or in a buffer a handler already owns)."""
     R = "C06.R4"
-    own = own_functions(tu)
     # (a) every state has a case
     sw = [n for n in rx.g.nodes if n.kind == "switch" and ctext(n.cond) == RXS]
     if len(sw) != 1:
@@ -1426,29 +1599,64 @@ def r4_sercomm(L, tu, tag, rx, tx, K, chain):
               line=tu.line(sw[0].ast))
     # (b) closing flag
     s3, addr_sink = chain[2][0], chain[0][1]
-    sig = rx.rows[(s3, K.flag)]
-    disp = [a for a in sig[1] if a[0] == "dispatch"]
+    var = rx.variants_of(s3, K.flag)
+    line = state_line(tu, rx, s3)
+    disp = sorted({tuple(a for a in sig[1] if a[0] == "dispatch") for (_, sig) in var})
     L.require(R, F, RX_FN, "closing flag in the payload state dispatches the frame exactly once with (address field, "
-              "receive buffer)", [("dispatch", addr_sink, RXM)], disp, line=state_line(tu, rx, s3))
-    after, seen = [], False
-    for a in sig[1]:
-        if a[0] == "dispatch":
-            seen = True
-        elif seen:
-            after.append(a)
-    ok = any(a[0] == "msg" and a[1] in ("NULL", "alloc") for a in after) and \
-        not any(a[0] in ("put", "payload", "free", "dispatch") for a in after)
-    L.ob(R, F, RX_FN, "after dispatch the handed-over buffer is forgotten (receive buffer pointer := NULL or a fresh "
-         "buffer) before the function returns", "%s := NULL after dispatch, no further use" % RXM,
-         rx.describe(sig), ok, state_line(tu, rx, s3))
+              "receive buffer)", [(("dispatch", addr_sink, RXM),)], disp, line=line)
+    callee, j = "dispatch_rx_msg", 1
+    outcomes = sorted(callee_outcomes(tu, callee, j), key=str)
+    L.floor(R, "paths of %s() (%s build)" % (callee, tag), len(outcomes), 2)
+    bad, pairs = [], 0
+    for (cons, sig) in var:
+        after, seen = [], False
+        for a in sig[1]:
+            if a[0] == "dispatch":
+                seen = True
+            elif seen:
+                after.append(a)
+        upto = []
+        forgot = False
+        for a in after:
+            if a[0] == "msg" and a[1] in ("NULL", "alloc"):
+                forgot = True
+                break
+            upto.append(a)
+        matched = 0
+        for (ret, fates) in outcomes:
+            if not consistent(cons, ret, callee):
+                continue
+            matched += 1
+            pairs += 1
+            how = "%s() %s, buffer %s" % (callee, "returns %s" % ret[1] if ret is not None else "returns",
+                                           " and ".join("passed to the DLCI handler" if f == "handler" else "freed"
+                                                        for f in sorted(fates)) if fates
+                                           else "neither handed to a handler nor freed")
+            if not forgot:
+                bad.append("%s: %s keeps pointing to the finished frame (%s) -- the next frame is appended to %s" % (
+                    how, RXM, rx.describe(sig), "a buffer it no longer owns" if fates else "its stale payload"))
+            elif any(a[0] in ("put", "payload", "dispatch") or (a[0] == "free" and fates) for a in upto):
+                bad.append("%s: buffer used again before %s is replaced (%s)" % (how, RXM, rx.describe(sig)))
+        # a variant no return statement of the callee can produce is dead code, not a behaviour
+    L.floor(R, "closing-flag paths x outcomes of %s() (%s build)" % (callee, tag), pairs, 2)
+    L.ob(R, F, RX_FN, "after the closing flag the finished frame's buffer is forgotten on every path, whatever %s() "
+         "returned and did with it (receive buffer pointer := NULL or a fresh buffer before the function returns)" % callee,
+         "%s := NULL / fresh buffer after dispatch on every path" % RXM,
+         sorted(set(bad)) or "%s replaced on all %d paths" % (RXM, pairs), not bad, line)
+    nxt = sorted({sname(rx.names, sig[0]) for (_, sig) in var})
     L.require(R, F, RX_FN, "after the closing flag the receiver waits for the next opening flag",
-              sname(rx.names, 0), sname(rx.names, sig[0]), line=state_line(tu, rx, s3))
-    where = sorted({"%s on %s" % (sname(rx.names, s), hx(v)) for (s, v), g in rx.rows.items()
-                    if any(a[0] == "dispatch" for a in g[1])})
+              [sname(rx.names, 0)], nxt, line=line)
+    where = sorted({"%s on %s" % (sname(rx.names, s), hx(v)) for (s, v) in rx.rows
+                    for (_, g) in rx.variants_of(s, v) if any(a[0] == "dispatch" for a in g[1])})
     if len(where) > 4:
         where = where[:4] + ["... %d more" % (len(where) - 4)]
     L.require(R, F, RX_FN, "frames are dispatched only on the flag octet in the payload state",
               ["%s on %s" % (sname(rx.names, s3), hx(K.flag))], where)
+
+
+def r4_index_bounds(L, tu, tag):
+    R = "C06.R4"
+    own = own_functions(tu)
     # (c) index bounds
     count = {HANDLERS: 0, QUEUES: 0}
     for name, fn in sorted(own.items()):
@@ -1504,9 +1712,10 @@ def r4_sercomm(L, tu, tag, rx, tx, K, chain):
     st = [(ctext(kids(e[1])[1]), ctext(e[2])) for e in effects(tu.body(fn))
           if e[0] == "store" and kind(e[1]) == "ArraySubscriptExpr" and ctext(kids(e[1])[0]) == HANDLERS]
     L.require(R, F, "sercomm_register_rx_cb", "the callback is registered under its own DLCI", [(pn[0], pn[1])], st)
-    # (e) queue scan
-    r4_queue_scan(L, tu, tx)
-    # (f) sercomm_sendmsg
+
+
+def r4_sendmsg(L, tu):
+    R = "C06.R4"
     fn = tu.func("sercomm_sendmsg")
     L.fn(F, "sercomm_sendmsg")
     pn = [p.get("name") for p in tu.fparams(fn)]
@@ -1956,24 +2165,946 @@ def r5_callers(L):
     L.floor(R, "sercomm_sendmsg call sites", nsites, 15 if full else 2)
 
 
+# ------------------------------------------------- C06.R6 callers of the pull
+#
+# "Every octet handed out by the transmitter reaches the wire, in order."
+# sercomm_drv_pull() hands the framed stream out one octet per successful
+# call; the octet then lives in storage of the caller.  Each caller is
+# executed abstractly on its statement CFG: integer locals are concrete, the
+# outcome of every pull is followed both ways (0: nothing stored, 1: one
+# octet stored through the argument), every other call result / non-local
+# read is an opaque symbol whose tests are followed both ways under recorded
+# path facts.  A pulled octet is a token that moves with assignments; it is
+# "forwarded" when it (or a value computed from it) becomes a call argument,
+# is stored into non-local memory or returned, or when its buffer cell is
+# covered by write(fd, buf, n).  It is LOST when its storage is overwritten
+# or goes out of scope (function return) while still pending -- whatever the
+# surrounding code looks like, that octet never reaches the wire.
+
+PULL = "sercomm_drv_pull"
+WIRE_SINKS = {"write": (1, 2)}     # POSIX write(fd, buf, n) sends buf[0] .. buf[n-1] in index order (trusted)
+R6_STATES_BASE, R6_STATES_PER_CELL = 2000, 40    # budget of the path exploration: base + per cell of the largest pull buffer
+R6_SKIP_FILES = (F,)               # the definition itself
+
+
+def c_wrap(v, qt, tukind):
+    qt = (qt or "").replace("const ", "").replace("volatile ", "").strip()
+    if qt in ("unsigned long", "size_t", "long", "ssize_t", "long long", "unsigned long long", "uint64_t", "int64_t"):
+        bits = 32 if (tukind == "fw" and "long long" not in qt and "64" not in qt) else 64
+        signed = qt in ("long", "ssize_t", "long long", "int64_t")
+        v &= (1 << bits) - 1
+        if signed and v >= 1 << (bits - 1):
+            v -= 1 << bits
+        return v
+    if qt == "_Bool":
+        return int(bool(v))
+    return wrap_int(v, qt)
+
+
+def key_deps(k):
+    """Leaves (symbols, memory reads) an opaque key is built from."""
+    if not isinstance(k, tuple):
+        return frozenset()
+    if k[0] in ("sym", "mem", "uninit"):
+        return frozenset([k])
+    out = frozenset()
+    for x in k[1:]:
+        out |= key_deps(x)
+    return out
+
+
+def key_text(k):
+    if not isinstance(k, tuple):
+        return str(k)
+    if k[0] == "sym":
+        return k[2] if len(k) > 2 and k[2] else "<value %d>" % k[1]
+    if k[0] == "mem":
+        return k[1]
+    if k[0] == "uninit":
+        return "<uninitialised>"
+    if k[0] == "op":
+        return "(%s %s %s)" % (key_text(k[2]), k[1], key_text(k[3]))
+    if k[0] == "un":
+        return "%s%s" % (k[1], key_text(k[2]))
+    return "<%s>" % k[0]
+
+
+class PState:
+    __slots__ = ("env", "pending", "facts", "risk", "born")
+
+    def __init__(self):
+        self.env = {}          # (decl id, index | None) / ("mem", text) -> value
+        self.pending = ()      # ascending seqs of octets pulled and not yet forwarded
+        self.facts = {}        # opaque key -> (("eq", v) | ("ne", frozenset), stale)
+        self.risk = None       # why the feasibility of this path is not decided
+        self.born = {}         # seq -> (site index, witness text)
+
+    def copy(self):
+        s = PState()
+        s.env = dict(self.env)
+        s.pending = self.pending
+        s.facts = dict(self.facts)
+        s.risk = self.risk
+        s.born = dict(self.born)
+        return s
+
+    def key(self, nid):
+        return (nid, frozenset(self.env.items()), self.pending, frozenset(self.facts.items()), self.risk is not None)
+
+
+class PullExec:
+    """Abstract execution of one caller of sercomm_drv_pull()."""
+
+    def __init__(self, tu, fname, fn):
+        self.tu, self.fname, self.fn = tu, fname, fn
+        self.g = CCFG(tu, fn)
+        body = tu.body(fn)
+        self.locals = {}
+        for n in walk(fn):
+            if kind(n) in ("VarDecl", "ParmVarDecl") and n.get("storageClass") not in ("static", "extern") and "id" in n:
+                self.locals[n["id"]] = n
+        self.sites = calls_to(body, PULL)
+        self.site_ix = {id(c): i for i, c in enumerate(self.sites)}
+        self.pulls = [0] * len(self.sites)        # successful pulls explored per site
+        self.lost = {}                            # (site, how) -> witness
+        self.disorder = set()
+        self.sinks = 0
+        self.undecided = []
+        self.nstates = 0
+        self.dests = set()
+        for c in self.sites:
+            for x in walk(call_args(c)[0]):
+                if kind(x) == "DeclRefExpr" and x.get("referencedDecl", {}).get("id") in self.locals:
+                    self.dests.add(x["referencedDecl"]["id"])
+        self.relevant = self._relevant(body)
+        ext = [array_extent(d.get("type", {}).get("qualType")) or 1 for d in self.locals.values()] or [1]
+        self.max_states = R6_STATES_BASE + R6_STATES_PER_CELL * max(ext)
+
+    # -- which locals steer control flow, indices or call arguments ------------
+    def _relevant(self, body):
+        def refs(n):
+            return {x["referencedDecl"]["id"] for x in walk(n) if kind(x) == "DeclRefExpr" and
+                    x.get("referencedDecl", {}).get("id") in self.locals}
+        rel = set(self.dests)
+        for n in self.g.nodes:
+            if n.kind in ("cond", "switch") and n.cond is not None:
+                rel |= refs(n.cond)
+        defs = []
+        for n in walk(body):
+            k = kind(n)
+            if k == "CallExpr":
+                for a in kids(n):
+                    rel |= refs(a)
+            elif k == "ArraySubscriptExpr":
+                rel |= refs(kids(n)[1])
+            elif k == "ConditionalOperator":
+                rel |= refs(kids(n)[0])
+            elif k == "BinaryOperator" and n.get("opcode") in ("&&", "||"):
+                rel |= refs(n)
+            elif k == "BinaryOperator" and n.get("opcode") in ("+", "-") and "*" in n.get("type", {}).get("qualType", ""):
+                rel |= refs(n)
+            elif k == "UnaryOperator" and n.get("opcode") == "*":
+                rel |= refs(n)
+            elif k == "ReturnStmt":
+                rel |= refs(n)
+            elif k in ("BinaryOperator", "CompoundAssignOperator") and n.get("opcode", "").endswith("=") \
+                    and n.get("opcode") not in CMP:
+                lhs = strip(kids(n)[0])
+                i = ref_id(lhs)
+                if i is None:
+                    rel |= refs(n)            # store through something else than a plain local
+                else:
+                    defs.append((i, refs(kids(n)[1])))
+            elif k == "VarDecl" and n.get("init") and n.get("id") in self.locals:
+                defs.append((n["id"], refs(n)))
+        changed = True
+        while changed:
+            changed = False
+            for (i, r) in defs:
+                if i in rel and not r <= rel:
+                    rel |= r
+                    changed = True
+        return rel
+
+    # -- values ---------------------------------------------------------------
+    def fresh(self, st, label=None):
+        used = set()
+        for v in st.env.values():
+            if type(v) is tuple and v[0] == "opq" and v[1][0] not in ("spent", "uninit", "lit", "mem"):
+                used |= {d[1] for d in key_deps(v[1]) if d[0] == "sym"}
+        for k in st.facts:
+            used |= {d[1] for d in key_deps(k) if d[0] == "sym"}
+        n = 0
+        while n in used:
+            n += 1
+        return ("opq", ("sym", n, label))
+
+    def witness(self, st):
+        parts = []
+        for (k, v) in st.env.items():
+            if isinstance(v, int) and k[0] != "mem" and k[1] is None and k[0] in self.locals:
+                parts.append("%s = %d" % (self.locals[k[0]].get("name"), v))
+        return ", ".join(sorted(parts))
+
+    def holders(self, st, seq, but=None):
+        return [k for k, v in st.env.items() if k != but and isinstance(v, tuple) and v[0] == "oct" and seq in v[1]]
+
+    def die(self, st, val, cell, how):
+        """The value of `cell` is destroyed: pending octets held nowhere else are lost."""
+        if not (isinstance(val, tuple) and val[0] == "oct"):
+            return
+        for seq in sorted(val[1]):
+            if seq in st.pending and not self.holders(st, seq, but=cell):
+                site, wit = st.born.get(seq, (None, ""))
+                msg = "octet pulled%s is %s" % (" with %s" % wit if wit else "", how)
+                if st.risk:
+                    self.undecided.append("%s (path feasibility undecided: %s)" % (msg, st.risk))
+                else:
+                    cur = self.lost.get((site, how))
+                    if cur is None or (len(wit), wit) < (len(cur), cur):
+                        self.lost[(site, how)] = wit
+                st.pending = tuple(x for x in st.pending if x != seq)
+                st.facts.pop(("octtest", seq), None)
+
+    def consume(self, st, val):
+        if not (isinstance(val, tuple) and val[0] == "oct"):
+            return
+        gone = val[1]
+        if not (set(gone) & set(st.pending)):
+            return
+        st.pending = tuple(x for x in st.pending if x not in gone)
+        for seq in gone:
+            st.facts.pop(("octtest", seq), None)
+        for k, v in list(st.env.items()):
+            if isinstance(v, tuple) and v[0] == "oct" and v[1] & gone:
+                rest = v[1] - gone
+                st.env[k] = ("oct", rest) if rest else ("opq", ("spent",))
+        if not st.pending:
+            st.born = {}
+
+    # -- facts ------------------------------------------------------------------
+    def add_fact(self, st, key, con):
+        dk = key_deps(key)
+        for other in st.facts:
+            if other == key or not (dk & key_deps(other)):
+                continue
+            a, b = key, other
+            indep = (a[0] == "op" and b[0] == "op" and a[1] == "&" and b[1] == "&" and a[2] == b[2] and
+                     isinstance(a[3], int) and isinstance(b[3], int) and not (a[3] & b[3]))
+            if not indep and st.risk is None:
+                st.risk = "tests of `%s` and `%s` may be correlated" % (key_text(other), key_text(key))
+        st.facts[key] = (con, False)
+
+    def decide_eq(self, st, key, k):
+        """[(truth of key == k, state)]"""
+        f = st.facts.get(key)
+        if f is not None:
+            con, stale = f
+            if stale and st.risk is None:
+                st.risk = "`%s` is tested again after a call that may have changed it" % key_text(key)
+            if con[0] == "eq":
+                return [(con[1] == k, st)]
+            if k in con[1]:
+                return [(False, st)]
+            ne = con[1]
+        else:
+            ne = frozenset()
+        s2 = st.copy()
+        self.add_fact(st, key, ("eq", k))
+        self.add_fact(s2, key, ("ne", ne | {k}))
+        return [(True, st), (False, s2)]
+
+    def truth(self, v, st):
+        if isinstance(v, int):
+            return [(v != 0, st)]
+        if v[0] in ("ptr",):
+            return [(True, st)]
+        if v[0] == "oct":
+            self.octet_tested(st, v)
+            return [(True, st), (False, st.copy())]         # the octet's value is arbitrary
+        return [(not t, s) for (t, s) in self.decide_eq(st, v[1], 0)]
+
+    def octet_tested(self, st, v):
+        """Tests of a pulled octet's value are followed both ways; a second test of the same octet may be
+        correlated with the first one, which this analysis does not model."""
+        for seq in v[1]:
+            k = ("octtest", seq)
+            if k in st.facts and st.risk is None:
+                st.risk = "the value of a pulled octet is tested more than once"
+            st.facts[k] = (("ne", frozenset()), False)
+
+    def stale_all(self, st):
+        for k, (con, stale) in list(st.facts.items()):
+            if not stale and any(d[0] == "mem" for d in key_deps(k)):
+                st.facts[k] = (con, True)
+
+    # -- lvalues ------------------------------------------------------------------
+    def lvalue(self, e, st):
+        """[(location, state)]: ('cell', decl, index|None) | ('cellunk', decl) | ('mem', text)"""
+        e = strip(e)
+        k = kind(e)
+        if k == "DeclRefExpr":
+            rd = e.get("referencedDecl", {})
+            if rd.get("id") in self.locals:
+                return [(("cell", rd["id"], None), st)]
+            return [(("mem", rd.get("name")), st)]
+        if k == "ArraySubscriptExpr":
+            out = []
+            b, i = kids(e)
+            for (bv, s1) in self.ev(b, st):
+                for (iv, s2) in self.ev(i, s1):
+                    out.append((self.element(bv, iv, e), s2))
+            return out
+        if k == "UnaryOperator" and e.get("opcode") == "*":
+            return [(self.element(pv, 0, e), s1) for (pv, s1) in self.ev(kids(e)[0], st)]
+        if k == "MemberExpr":
+            if effects(e):
+                raise AnalysisError("%s(): side effect inside the lvalue `%s` -- unclassifiable" % (self.fname, ctext(e)))
+            return [(("mem", ctext(e)), st)]
+        raise AnalysisError("%s(): lvalue `%s` (%s) is outside the vocabulary of the pull-caller analysis" % (
+            self.fname, ctext(e), k))
+
+    def element(self, bv, iv, e):
+        if isinstance(bv, tuple) and bv[0] == "ptr":
+            d, i0 = bv[1], bv[2]
+            if i0 is None:
+                if iv == 0:
+                    return ("cell", d, None)
+                raise AnalysisError("%s(): `%s` indexes a scalar -- unclassifiable" % (self.fname, ctext(e)))
+            if not isinstance(iv, int):
+                return ("cellunk", d)
+            ext = array_extent(self.locals[d].get("type", {}).get("qualType"))
+            if ext is None or not (0 <= i0 + iv < ext):
+                raise AnalysisError("%s(): `%s` lies outside `%s` (index %d) -- outside the model of the pull-caller "
+                                    "analysis" % (self.fname, ctext(e), self.locals[d].get("name"), i0 + iv))
+            return ("cell", d, i0 + iv)
+        return ("mem", ctext(e))
+
+    def tracked(self, d):
+        return d in self.relevant
+
+    def has_octets(self, st, d):
+        return any(k[0] != "mem" and k[0] == d and isinstance(v, tuple) and v[0] == "oct"
+                   for k, v in st.env.items())
+
+    def load(self, e, st):
+        out = []
+        for (loc, s) in self.lvalue(e, st):
+            if loc[0] == "cell":
+                v = s.env.get((loc[1], loc[2]))
+                if v is None:
+                    v = ("opq", ("uninit", loc[1], loc[2])) if self.tracked(loc[1]) else self.fresh(s)
+            elif loc[0] == "cellunk":
+                if loc[1] in self.dests or self.has_octets(s, loc[1]):
+                    raise AnalysisError("%s(): `%s` reads the pull buffer at a position the analysis cannot resolve "
+                                        "-- unclassifiable" % (self.fname, ctext(e)))
+                v = self.fresh(s)
+            else:
+                v = s.env.get(loc)
+                if v is None:
+                    v = ("opq", loc)
+            out.append((v, s))
+        return out
+
+    def store(self, loc, v, st, e):
+        if loc[0] == "cell":
+            cell = (loc[1], loc[2])
+            if not self.tracked(loc[1]):
+                return
+            old = st.env.get(cell)
+            if old is not None:
+                self.die(st, old, cell, "overwritten by `%s` before it was forwarded" % ctext(e))
+            st.env[cell] = v
+        elif loc[0] == "cellunk":
+            if loc[1] in self.dests or self.has_octets(st, loc[1]):
+                raise AnalysisError("%s(): `%s` writes the pull buffer at a position the analysis cannot resolve "
+                                    "-- unclassifiable" % (self.fname, ctext(e)))
+        else:
+            self.consume(st, v)                    # leaves the function's own storage
+            for k in [k for k in st.facts if loc in key_deps(k)]:
+                del st.facts[k]
+            if isinstance(v, int) or (isinstance(v, tuple) and v[0] == "opq"):
+                st.env[loc] = v
+            else:
+                st.env.pop(loc, None)
+
+    # -- expressions -----------------------------------------------------------
+    def arith(self, op, a, b, e):
+        qt = e.get("type", {}).get("qualType")
+        if isinstance(a, int) and isinstance(b, int):
+            try:
+                if op in ("/", "%"):
+                    if b == 0:
+                        raise AnalysisError("%s(): division by zero in `%s`" % (self.fname, ctext(e)))
+                    q = abs(a) // abs(b) * (1 if (a < 0) == (b < 0) else -1)
+                    r = q if op == "/" else a - b * q
+                else:
+                    r = {"+": a + b, "-": a - b, "*": a * b, "<<": a << b if 0 <= b < 64 else None,
+                         ">>": a >> b if 0 <= b < 64 else None, "&": a & b, "|": a | b, "^": a ^ b,
+                         "<": int(a < b), ">": int(a > b), "<=": int(a <= b), ">=": int(a >= b),
+                         "==": int(a == b), "!=": int(a != b)}.get(op)
+            except (ValueError, OverflowError):
+                r = None
+            if r is None:
+                raise AnalysisError("%s(): `%s` does not fold" % (self.fname, ctext(e)))
+            return c_wrap(r, qt, self.tu.kind)
+        pa = isinstance(a, tuple) and a[0] == "ptr"
+        pb = isinstance(b, tuple) and b[0] == "ptr"
+        if pa and isinstance(b, int) and op in ("+", "-") and a[2] is not None:
+            return ("ptr", a[1], a[2] + (b if op == "+" else -b))
+        if pb and isinstance(a, int) and op == "+" and b[2] is not None:
+            return ("ptr", b[1], b[2] + a)
+        if pa or pb:
+            if pa and pb and a[1] == b[1] and a[2] is not None and b[2] is not None and op in CMP + ("-",):
+                return self.arith(op, a[2], b[2], {"type": {"qualType": "long"}})
+            raise AnalysisError("%s(): pointer expression `%s` -- unclassifiable" % (self.fname, ctext(e)))
+        oa = isinstance(a, tuple) and a[0] == "oct"
+        ob = isinstance(b, tuple) and b[0] == "oct"
+        if oa or ob:
+            if op in CMP:
+                return ("octcmp", (a[1] if oa else frozenset()) | (b[1] if ob else frozenset()))
+            return ("oct", (a[1] if oa else frozenset()) | (b[1] if ob else frozenset()))
+        ka = a if isinstance(a, int) else a[1]
+        kb = b if isinstance(b, int) else b[1]
+        if op in ("==", "!="):
+            if ka == kb:
+                return int(op == "==")
+            if isinstance(kb, int) or isinstance(ka, int):
+                return ("cmp", op, ka if isinstance(kb, int) else kb, kb if isinstance(kb, int) else ka)
+        return ("opq", ("op", op, ka, kb))
+
+    def ev(self, e, st):
+        """[(value, state)] of an expression evaluated for value and side effects."""
+        if e is None:
+            return [(0, st)]
+        k = kind(e)
+        ks = kids(e)
+        if k in ("ParenExpr", "ConstantExpr"):
+            return self.ev(ks[0], st)
+        if k in ("IntegerLiteral", "CharacterLiteral", "UnaryExprOrTypeTraitExpr"):
+            v = self.tu.fold(e)
+            if v is None:
+                raise AnalysisError("%s(): `%s` does not fold" % (self.fname, ctext(e)))
+            return [(v, st)]
+        if k in ("StringLiteral", "FloatingLiteral", "PredefinedExpr", "CompoundLiteralExpr", "InitListExpr",
+                 "ImplicitValueInitExpr"):
+            return [(("opq", ("lit", ctext(e))), st)]
+        if k in ("ImplicitCastExpr", "CStyleCastExpr"):
+            ck = e.get("castKind")
+            if ck == "LValueToRValue":
+                return self.load(ks[-1], st)
+            if ck == "ArrayToPointerDecay":
+                sub = strip(ks[-1])
+                if kind(sub) == "StringLiteral":
+                    return [(("opq", ("lit", ctext(sub))), st)]
+                out = []
+                for (loc, s) in self.lvalue(sub, st):
+                    if loc[0] == "cell" and loc[2] is None:
+                        out.append((("ptr", loc[1], 0), s))
+                    elif loc[0] == "mem":
+                        out.append((("opq", ("mem", "&" + str(loc[1]))), s))
+                    else:
+                        raise AnalysisError("%s(): array `%s` -- unclassifiable" % (self.fname, ctext(sub)))
+                return out
+            if ck in ("FunctionToPointerDecay", "BuiltinFnToFnPtr"):
+                return [(("opq", ("lit", ctext(ks[-1]))), st)]
+            out = []
+            qt = e.get("type", {}).get("qualType")
+            for (v, s) in self.ev(ks[-1], st):
+                if isinstance(v, int):
+                    if ck == "IntegralToBoolean":
+                        v = int(v != 0)
+                    elif ck in ("IntegralCast", "NoOp", None) or k == "CStyleCastExpr":
+                        v = c_wrap(v, qt, self.tu.kind)
+                out.append((v, s))
+            return out
+        if k == "DeclRefExpr":
+            rd = e.get("referencedDecl", {})
+            if rd.get("kind") == "EnumConstantDecl":
+                v = self.tu.fold(e)
+                if v is not None:
+                    return [(v, st)]
+            if rd.get("kind") == "FunctionDecl":
+                return [(("opq", ("lit", rd.get("name"))), st)]
+            return self.load(e, st)                    # array / struct used as a value
+        if k in ("MemberExpr", "ArraySubscriptExpr"):
+            return self.load(e, st)
+        if k == "UnaryOperator":
+            op = e.get("opcode")
+            if op == "&":
+                out = []
+                for (loc, s) in self.lvalue(ks[0], st):
+                    if loc[0] == "cell":
+                        d = loc[1]
+                        isarr = array_extent(self.locals[d].get("type", {}).get("qualType")) is not None
+                        out.append((("ptr", d, loc[2] if (loc[2] is not None or not isarr) else 0), s))
+                    elif loc[0] == "cellunk":
+                        raise AnalysisError("%s(): `%s` points into the buffer at a position the analysis cannot "
+                                            "resolve -- unclassifiable" % (self.fname, ctext(e)))
+                    else:
+                        out.append((("opq", ("mem", "&" + str(loc[1]))), s))
+                return out
+            if op == "*":
+                return self.load(e, st)
+            if op in ("++", "--"):
+                out = []
+                for (loc, s) in self.lvalue(ks[0], st):
+                    for (old, s2) in self.load(ks[0], s):
+                        new = self.arith("+" if op == "++" else "-", old, 1, e)
+                        self.store(loc, new, s2, e)
+                        out.append((old if e.get("isPostfix") else new, s2))
+                return out
+            out = []
+            for (v, s) in self.ev(ks[0], st):
+                if op == "!":
+                    for (t, s2) in self.truth(v, s):
+                        out.append((int(not t), s2))
+                elif isinstance(v, int):
+                    r = {"-": -v, "+": v, "~": ~v}.get(op)
+                    if r is None:
+                        raise AnalysisError("%s(): operator `%s` -- unclassifiable" % (self.fname, op))
+                    out.append((c_wrap(r, e.get("type", {}).get("qualType"), self.tu.kind), s))
+                elif v[0] == "oct":
+                    out.append((v, s))
+                elif v[0] == "opq":
+                    out.append((("opq", ("un", op, v[1])), s))
+                else:
+                    raise AnalysisError("%s(): `%s` -- unclassifiable" % (self.fname, ctext(e)))
+            return out
+        if k == "BinaryOperator":
+            op = e.get("opcode")
+            if op == "=":
+                out = []
+                for (v, s) in self.ev(ks[1], st):
+                    for (loc, s2) in self.lvalue(ks[0], s):
+                        self.store(loc, v, s2, e)
+                        out.append((v, s2))
+                return out
+            if op == ",":
+                out = []
+                for (_, s) in self.ev(ks[0], st):
+                    out += self.ev(ks[1], s)
+                return out
+            if op in ("&&", "||"):
+                out = []
+                for (a, s) in self.ev(ks[0], st):
+                    for (ta, s2) in self.truth(a, s):
+                        if ta == (op == "||"):
+                            out.append((int(ta), s2))
+                        else:
+                            for (b, s3) in self.ev(ks[1], s2):
+                                for (tb, s4) in self.truth(b, s3):
+                                    out.append((int(tb), s4))
+                return out
+            out = []
+            for (a, s) in self.ev(ks[0], st):
+                for (b, s2) in self.ev(ks[1], s):
+                    r = self.arith(op, a, b, e)
+                    if isinstance(r, tuple) and r[0] == "octcmp":
+                        self.octet_tested(s2, r)
+                        out.append((self.fresh(s2), s2))
+                    elif isinstance(r, tuple) and r[0] == "cmp":
+                        for (t, s3) in self.decide_eq(s2, r[2], r[3]):
+                            out.append((int(t == (r[1] == "==")), s3))
+                    else:
+                        out.append((r, s2))
+            return out
+        if k == "CompoundAssignOperator":
+            op = e.get("opcode")[:-1]
+            out = []
+            for (b, s) in self.ev(ks[1], st):
+                for (loc, s2) in self.lvalue(ks[0], s):
+                    for (a, s3) in self.load(ks[0], s2):
+                        r = self.arith(op, a, b, e)
+                        if isinstance(r, tuple) and r[0] in ("cmp", "octcmp"):
+                            r = self.fresh(s3)
+                        self.store(loc, r, s3, e)
+                        out.append((r, s3))
+            return out
+        if k == "ConditionalOperator":
+            out = []
+            for (c, s) in self.ev(ks[0], st):
+                for (t, s2) in self.truth(c, s):
+                    out += self.ev(ks[1] if t else ks[2], s2)
+            return out
+        if k == "CallExpr":
+            return self.call(e, st)
+        raise AnalysisError("%s(): expression `%s` (%s) is outside the vocabulary of the pull-caller analysis" % (
+            self.fname, ctext(e), k))
+
+    def call(self, e, st):
+        ks = kids(e)
+        callee = strip(ks[0])
+        name = None
+        if kind(callee) == "DeclRefExpr" and callee.get("referencedDecl", {}).get("kind") == "FunctionDecl":
+            name = callee["referencedDecl"].get("name")
+        states = [([], st)]
+        if name is None:
+            states = [([], s) for (_, s) in self.ev(ks[0], st)]
+        for a in ks[1:]:
+            nxt = []
+            for (vals, s) in states:
+                for (v, s2) in self.ev(a, s):
+                    nxt.append((vals + [v], s2))
+            states = nxt
+        out = []
+        for (vals, s) in states:
+            out += self.apply_call(name, e, vals, s)
+        return out
+
+    def apply_call(self, name, e, vals, st):
+        line = self.tu.line(e)
+        if name == PULL:
+            dst = vals[0] if vals else None
+            if not (isinstance(dst, tuple) and dst[0] == "ptr" and dst[1] in self.locals):
+                raise AnalysisError("%s(): the octet is pulled into `%s`, which is not a local object of the caller "
+                                    "-- unclassifiable" % (self.fname, ctext(call_args(e)[0])))
+            d, idx = dst[1], dst[2]
+            if idx is not None:
+                ext = array_extent(self.locals[d].get("type", {}).get("qualType"))
+                if ext is None or not (0 <= idx < ext):
+                    raise AnalysisError("%s(): %s(%s) stores outside `%s` (index %s) -- outside the model of the "
+                                        "pull-caller analysis" % (self.fname, PULL, ctext(call_args(e)[0]),
+                                                                  self.locals[d].get("name"), idx))
+            self.stale_all(st)
+            fail = st.copy()
+            cell = (d, idx)
+            old = st.env.get(cell)
+            site = self.site_ix[id(e)]
+            if old is not None:
+                self.die(st, old, cell, "overwritten by the next %s(%s) before it was forwarded" % (
+                    PULL, ctext(call_args(e)[0])))
+            seq = (st.pending[-1] + 1) if st.pending else 0
+            st.env[cell] = ("oct", frozenset([seq]))
+            st.pending = st.pending + (seq,)
+            st.born[seq] = (site, self.witness(st))
+            self.pulls[site] += 1
+            return [(0, fail), (1, st)]
+        if name in WIRE_SINKS:
+            bi, ni = WIRE_SINKS[name]
+            buf = vals[bi] if bi < len(vals) else None
+            n = vals[ni] if ni < len(vals) else None
+            if isinstance(buf, tuple) and buf[0] == "ptr" and (buf[1] in self.dests or self.has_octets(st, buf[1])):
+                d, i0 = buf[1], buf[2]
+                if not isinstance(n, int) or i0 is None and n != 1:
+                    raise AnalysisError("%s(): length `%s` of %s() is not a known number on this path -- unclassifiable"
+                                        % (self.fname, ctext(call_args(e)[ni]), name))
+                self.sinks += 1
+                seqs = []
+                for j in range(n):
+                    v = st.env.get((d, None if i0 is None else i0 + j))
+                    if not (isinstance(v, tuple) and v[0] == "oct" and len(v[1]) == 1):
+                        # data that did not come from the framer: harmless between frames, fatal inside one -- no verdict
+                        pre = "%s() sends `%s[" % (name, self.locals[d].get("name"))
+                        if not any(m.startswith(pre) for m in self.undecided):
+                            self.undecided.append("%s%d]`, which holds no pulled octet (%s) -- outside the model of the "
+                                                  "pull-caller analysis" % (pre, (i0 or 0) + j,
+                                                                            self.witness(st) or "no known locals"))
+                        continue
+                    seqs.append(list(v[1])[0])
+                left = [p for p in st.pending if p not in seqs and seqs and p < max(seqs)]
+                if seqs != sorted(seqs) or left:
+                    msg = "%s(%s) sends octets in another order than they were pulled%s" % (
+                        name, ", ".join(ctext(a) for a in call_args(e)),
+                        " (an older octet is left behind)" if left else "")
+                    if st.risk:
+                        self.undecided.append(msg)
+                    else:
+                        self.disorder.add(msg)
+                self.consume(st, ("oct", frozenset(seqs)))
+                for i, v in enumerate(vals):
+                    if i != bi:
+                        self.consume(st, v)
+                self.stale_all(st)
+                return [(self.fresh(st, "%s()" % name), st)]
+        for i, v in enumerate(vals):
+            if isinstance(v, tuple) and v[0] == "oct":
+                self.consume(st, v)
+            elif isinstance(v, tuple) and v[0] == "ptr" and v[1] in self.locals:
+                d = v[1]
+                if any(k[0] != "mem" and k[0] == d and isinstance(x, tuple) and x[0] == "oct" and
+                       (x[1] & set(st.pending)) for k, x in st.env.items()):
+                    raise AnalysisError("%s(): the address of storage holding a pulled octet is handed to %s() -- "
+                                        "unclassifiable" % (self.fname, name or ctext(kids(e)[0])))
+                for k in [k for k in st.env if k[0] != "mem" and k[0] == d]:
+                    del st.env[k]
+                if array_extent(self.locals[d].get("type", {}).get("qualType")) is None and self.tracked(d):
+                    st.env[(d, None)] = self.fresh(st)
+        self.stale_all(st)
+        return [(self.fresh(st, "%s()" % (name or ctext(kids(e)[0]))), st)]
+
+    # -- statements / CFG -------------------------------------------------------
+    def exec_stmt(self, a, st):
+        k = kind(a)
+        if a is None or k in ("DoHead", "BreakStmt", "ContinueStmt", "GotoStmt", "NullStmt"):
+            return [st]
+        if k == "DeclStmt":
+            states = [st]
+            for d in kids(a):
+                if kind(d) != "VarDecl" or not d.get("init") or d.get("id") not in self.locals:
+                    continue
+                init = [c for c in kids(d) if "Attr" not in (kind(c) or "")][-1]
+                nxt = []
+                for s in states:
+                    for (v, s2) in self.ev(init, s):
+                        if array_extent(d.get("type", {}).get("qualType")) is None:
+                            self.store(("cell", d["id"], None), v, s2, init)
+                        nxt.append(s2)
+                states = nxt
+            return states
+        if k == "ReturnStmt":
+            out = []
+            ks = kids(a)
+            if not ks:
+                return [st]
+            for (v, s) in self.ev(ks[0], st):
+                self.consume(s, v)
+                out.append(s)
+            return out
+        return [s for (_, s) in self.ev(a, st)]
+
+    def normalise(self, st):
+        """Drop facts about symbols no variable holds any more and rename the live ones canonically."""
+        live = []
+        opq = [(k, v) for k, v in st.env.items() if type(v) is tuple and v[0] == "opq" and
+               v[1][0] not in ("spent", "uninit", "lit", "mem")]
+        if not opq and not st.facts:
+            return
+        for k, v in sorted(opq, key=str):
+            for d in sorted(key_deps(v[1]), key=str):
+                if d[0] == "sym" and d not in live:
+                    live.append(d)
+        ren = {d: ("sym", i, d[2]) for i, d in enumerate(live)}
+
+        def rn(k):
+            if not isinstance(k, tuple):
+                return k
+            if k[0] == "sym":
+                return ren.get(k, k)
+            if k[0] in ("mem", "uninit", "lit", "spent"):
+                return k
+            return (k[0],) + tuple(rn(x) for x in k[1:])
+        for k in list(st.facts):
+            deps = key_deps(k)
+            if any(d[0] == "sym" and d not in ren for d in deps):
+                del st.facts[k]
+        if any(ren[d] != d for d in ren):
+            for k, v in list(st.env.items()):
+                if isinstance(v, tuple) and v[0] == "opq":
+                    st.env[k] = ("opq", rn(v[1]))
+            st.facts = {rn(k): f for k, f in st.facts.items()}
+
+    def run(self):
+        g = self.g
+        work = [(g.entry, PState())]
+        seen = set()
+        while work:
+            node, st = work.pop()
+            self.normalise(st)
+            key = st.key(node.id)
+            if key in seen:
+                continue
+            seen.add(key)
+            self.nstates += 1
+            if self.nstates > self.max_states:
+                raise AnalysisError("%s(): the state space of the pull-caller analysis does not close (more than %d "
+                                    "states) -- unclassifiable" % (self.fname, self.max_states))
+            if node is g.exit:
+                for (cell, v) in list(st.env.items()):
+                    if cell[0] != "mem":
+                        st.env.pop(cell)
+                        self.die(st, v, cell, "never forwarded before %s() returns (its storage goes out of scope)"
+                                 % self.fname)
+                continue
+            if node is g.rexit:
+                continue
+            if node.kind == "cond":
+                if node.cond is None:
+                    for (t, l) in node.succ:
+                        if l is not False:
+                            work.append((t, st))
+                            break
+                    continue
+                for (v, s) in self.ev(node.cond, st):
+                    for (b, s2) in self.truth(v, s):
+                        tgt = [t for (t, l) in node.succ if bool(l) == b]
+                        if not tgt:
+                            raise AnalysisError("%s(): branch of `%s` missing in the CFG" % (self.fname, ctext(node.cond)))
+                        work.append((tgt[0], s2))
+                continue
+            if node.kind == "switch":
+                cases = [(t, l[1]) for (t, l) in node.succ if isinstance(l, tuple)]
+                dflt = [t for (t, l) in node.succ if l in ("default", "nodefault")]
+                if any(not isinstance(c, int) for (_, c) in cases):
+                    raise AnalysisError("%s(): case label does not fold" % self.fname)
+                for (v, s) in self.ev(node.cond, st):
+                    if isinstance(v, int):
+                        tgt = [t for (t, c) in cases if c == v] or dflt
+                        if tgt:
+                            work.append((tgt[0], s))
+                        continue
+                    if v[0] != "opq":
+                        for (t, _) in node.succ:
+                            work.append((t, s.copy()))
+                        continue
+                    rest = s
+                    for (t, c) in cases:
+                        res = self.decide_eq(rest, v[1], c)
+                        nxt = None
+                        for (truth, s2) in res:
+                            if truth:
+                                work.append((t, s2))
+                            else:
+                                nxt = s2
+                        if nxt is None:
+                            rest = None
+                            break
+                        rest = nxt
+                    if rest is not None and dflt:
+                        work.append((dflt[0], rest))
+                continue
+            if node.kind == "stmt":
+                if not node.succ:
+                    raise AnalysisError("%s(): dead end in the CFG" % self.fname)
+                for s in self.exec_stmt(node.ast, st):
+                    work.append((node.succ[0][0], s))
+                continue
+            if not node.succ:
+                raise AnalysisError("%s(): dead end in the CFG" % self.fname)
+            work.append((node.succ[0][0], st))
+
+
+def r6_pull_contract(L, tu, tag, tx):
+    """C06.R6 (callee side).  Callers tell 'an octet was handed out' from
+    'nothing to send' by the return value alone: it is non-zero exactly on the
+    paths that stored one octet through the argument."""
+    R = "C06.R6"
+    bad = set()
+    n = 0
+    for sig in list(set(tx.rows.values())) + [tx.sig(p) for p in tx.idle]:
+        acts = sig[1]
+        if any(a[0] == "loopcut" for a in acts):
+            continue
+        n += 1
+        em = [a for a in acts if a[0] == "emit"]
+        ret = [a[1] for a in acts if a[0] == "return"]
+        if len(ret) != 1 or ret[0][0] != "const" or len(em) > 1 or (ret[0][1] != 0) != (len(em) == 1):
+            bad.add(tx.describe(sig))
+    L.floor(R, "walked paths of %s (%s build)" % (TX_FN, tag), n, 4)
+    L.require(R, F, TX_FN, "the return value is non-zero exactly on the paths that stored one octet through the "
+              "argument (what the callers forward), and 0 when nothing was stored", [], sorted(bad))
+
+
+def r6_pull_callers(L):
+    """C06.R6 (caller side).  Decides the clause 'queued for transmission and
+    fed octet by octet into a receiver ... identical payload' at the hand-over
+    from the framer to the wire: on every path of every caller, an octet
+    obtained by a successful sercomm_drv_pull() is passed on before its storage
+    is overwritten or goes out of scope, and a buffer handed to write() leaves
+    in pull order.  An octet that dies in the caller is missing on the wire."""
+    R = "C06.R6"
+    located = []
+    for kindname, top in SEARCH:
+        root = os.path.join(L.repo, top)
+        if not os.path.isdir(root):
+            raise AnalysisError("directory %s vanished" % top)
+        for dp, dn, fnames in os.walk(root):
+            dn.sort()
+            for fnm in sorted(fnames):
+                if not fnm.endswith(".c"):
+                    continue
+                p = os.path.join(dp, fnm)
+                rel_ = os.path.relpath(p, L.repo)
+                if rel_ in R6_SKIP_FILES:
+                    continue
+                try:
+                    with open(p, encoding="utf-8", errors="replace") as fh:
+                        src = fh.read()
+                except OSError as e:
+                    raise AnalysisError("cannot read %s: %s" % (p, e))
+                n = ident_count(src, PULL) if PULL in src else 0
+                if n:
+                    located.append((kindname, top, rel_, n))
+    full = os.path.isdir(os.path.join(L.repo, "src/target/firmware/calypso"))
+    L.floor(R, "files calling %s" % PULL, len(located), 3 if full else 1)
+    stub = tempfile.mkdtemp(prefix="vsa-c06-", dir=os.environ.get("TMPDIR") or "/var/tmp")
+    nsites = 0
+    try:
+        for rel_, txt in FW_STUBS.items():
+            os.makedirs(os.path.dirname(os.path.join(stub, rel_)), exist_ok=True)
+            with open(os.path.join(stub, rel_), "w") as fh:
+                fh.write(txt)
+        for kindname, top, rel_, ntext in located:
+            tu = TU(L.repo, kindname, os.path.relpath(rel_, top), L=L,
+                    defines=COMMON_DEFINES + FILE_DEFINES.get(rel_, ()),
+                    extra_flags=("-I", stub) if kindname == "fw" else ())
+            own = own_functions(tu)
+            nast = 0
+            for name, fn in sorted(own.items()):
+                refs = [n for n in walk(tu.body(fn)) if kind(n) == "DeclRefExpr" and
+                        n.get("referencedDecl", {}).get("name") == PULL]
+                if not refs:
+                    continue
+                nast += len(refs)
+                sites = calls_to(tu.body(fn), PULL)
+                if len(sites) != len(refs):
+                    raise AnalysisError("%s(): %s is used as a value (not called) -- its callers are not visible" % (name, PULL))
+                L.fn(tu.rel, name)
+                ex = PullExec(tu, name, fn)
+                ex.run()
+                nsites += len(sites)
+                for i, c in enumerate(sites):
+                    arg = ctext(call_args(c)[0])
+                    L.floor(R, "explored successful %s(%s) in %s of %s" % (PULL, arg, name, tu.rel), ex.pulls[i], 1)
+                    found = sorted("%s%s" % (how, " [first: %s]" % wit if wit else "")
+                                   for (site, how), wit in ex.lost.items() if site == i)
+                    L.ob(R, tu.rel, name, "every octet obtained by a successful %s(%s) is passed on (call argument, or "
+                         "a buffer cell covered by write()) before its storage is overwritten or goes out of scope, on "
+                         "every path" % (PULL, arg), "no pulled octet is dropped",
+                         found or "passed on on every path", not found, tu.line(c))
+                if ex.sinks:
+                    L.require(R, tu.rel, name, "a buffer of pulled octets handed to write() leaves in the order the "
+                              "octets were pulled, none left behind", [], sorted(ex.disorder))
+                if ex.undecided:
+                    raise AnalysisError("%s(): %s" % (name, "; ".join(sorted(set(ex.undecided))[:2])))
+            if nast < ntext:
+                raise AnalysisError("%s mentions %s %d times but only %d references are visible in the parsed "
+                                    "configuration (call site hidden by the preprocessor)" % (rel_, PULL, ntext, nast))
+    finally:
+        shutil.rmtree(stub, ignore_errors=True)
+    L.floor(R, "%s call sites outside sercomm.c" % PULL, nsites, 3 if full else 1)
+
+
+def load_tu(L, kindname, relfile):
+    tu = TU(L.repo, kindname, relfile, L=L)
+    if tu.rel != F:
+        raise AnalysisError("unexpected path of sercomm.c: %s" % tu.rel)
+    return tu
+
+
 def run(L, tier):
     for h in (HDR, MSGB_H, LLIST_H):
         L.unit(h)
+    # every rule group runs as its own stage: an AnalysisError in one of them is deferred, so a violation
+    # recognised by another group is still reported
     for tag, kindname, relfile, size in BUILDS:
-        tu = TU(L.repo, kindname, relfile, L=L)
-        if tu.rel != F:
-            raise AnalysisError("unexpected path of sercomm.c: %s" % tu.rel)
-        rx = Rx(tu)
-        tx = Tx(tu)
-        r1_bounded_store(L, tu, tag, size, rx)
-        r1_capacity(L, tu, tag, size)
-        K = r2_tx(L, tu, tag, tx)
+        tu = L.stage(load_tu, L, kindname, relfile)
+        rx = L.stage(Rx, tu)
+        tx = L.stage(Tx, tu)
+        L.stage(r1_bounded_store, L, tu, tag, size, rx)
+        L.stage(r1_capacity, L, tu, tag, size)
+        L.stage(r4_index_bounds, L, tu, tag)
+        L.stage(r4_queue_scan, L, tu, tx)
+        L.stage(r4_sendmsg, L, tu)
+        L.stage(r6_pull_contract, L, tu, tag, tx)
+        K = L.stage(r2_tx, L, tu, tag, tx)
         if K is None:
             continue        # the transmitter's shape is already reported as violated
-        chain = r2_r3_rx(L, tu, tag, rx, K)
+        chain = L.stage(r2_r3_rx, L, tu, tag, rx, K)
         if chain is None:
             continue
-        r4_sercomm(L, tu, tag, rx, tx, K, chain)
-    r4_msgb(L)
+        L.stage(r4_frame_end, L, tu, tag, rx, K, chain)
+    L.stage(r4_msgb, L)
+    L.stage(r6_pull_callers, L)
     if tier == "thorough":
-        r5_callers(L)
+        L.stage(r5_callers, L)
